@@ -80,6 +80,16 @@ def inl(crate, body, thread=True, **kw):
     return ib
 
 
+def is_empty_vec(v):
+    """a freshly made, empty Vec: Vec::new() / Vec::with_capacity(n) / Vec::default() / Default::default() of a Vec"""
+    v = norm(v) if isinstance(v, tuple) else v
+    if not isinstance(v, tuple):
+        return False
+    if term_callee_is(v, 'alloc::vec::Vec::new', 'alloc::vec::Vec::with_capacity'):
+        return True
+    return v[0] == 'call' and isinstance(v[1], str) and not v[2] and v[1] in ('<alloc::vec::Vec as core::default::Default>::default',)
+
+
 def strip_load(t):
     """Drop 'load' wrappers whose version is entry; keep others."""
     return t
@@ -515,6 +525,21 @@ def guards_of(T, target, removed=(), entry=0):
             if form is not None:
                 dt = ('bin', form[0], a_, b_)
                 labels = [('bool', form[1])]
+        # a constant written on the left (`0 == v.count()`) reads the other way round; `x.len() == 0` / `!= 0` / `> 0` / `>= 1` /
+        # `< 1` is `x.is_empty()` / its negation
+        nd = norm(dt)
+        if nd[0] == 'bin' and nd[1] in ('Eq', 'Ne', 'Lt', 'Le', 'Gt', 'Ge') and labels and all(l[0] == 'bool' for l in labels):
+            op_, a_, c_ = nd[1], nd[2], nd[3]
+            if a_[0] == 'const' and c_[0] != 'const':
+                op_ = {'Lt': 'Gt', 'Gt': 'Lt', 'Le': 'Ge', 'Ge': 'Le', 'Eq': 'Eq', 'Ne': 'Ne'}[op_]
+                a_, c_ = c_, a_
+                dt = nd = ('bin', op_, a_, c_)
+            if c_[0] == 'const' and a_[0] == 'call' and isinstance(a_[1], str) and a_[1].endswith('::len') and len(a_[2]) == 1:
+                empty_when_true = {('Eq', '0'): True, ('Le', '0'): True, ('Lt', '1'): True, ('Ne', '0'): False, ('Gt', '0'): False, ('Ge', '1'): False}.get((op_, str(c_[2])))
+                if empty_when_true is not None:
+                    dt = ('call', a_[1][:-len('len')] + 'is_empty', a_[2]) + tuple(a_[3:])
+                    if not empty_when_true:
+                        labels = [('bool', not l[1]) for l in labels]
         out.append((dt, labels, bi))
     return out
 
